@@ -123,6 +123,14 @@ func answering(k int) {
 		if r.Bool() { // the neighbour's usual, unchanged link address
 			sha = [6]byte{2, 9, 9, 9, 9, spa[3]}
 		}
+		probe := false
+		if r.Chance(1, 8) {
+			// an address probe (RFC 5227; also what a host without an address yet sends): the
+			// sender's protocol address is 0.0.0.0. Whether it is answered depends on the
+			// target alone; nothing about learning from it is judged.
+			spa, probe = [4]byte{}, true
+			run.Count("arp_probes_with_unspecified_sender", 1)
+		}
 		targets := [][4]byte{ip4b(wire.AddrA4), {10, 0, 0, 7}, {10, 0, 0, 99}, {192, 168, 1, 1}, spa}
 		tpa := targets[r.Intn(len(targets))]
 		own := tpa == ip4b(wire.AddrA4) || (second && tpa == [4]byte{10, 0, 0, 7})
@@ -154,7 +162,7 @@ func answering(k int) {
 			if nrep != 0 {
 				viol("arp/answered-malformed", fmt.Sprintf("a malformed ARP packet (%x) was answered with %d replies", b, nrep))
 			}
-			if la, err := x.lookup(tcpip.Address(spa[:])); err == nil {
+			if la, err := x.lookup(tcpip.Address(spa[:])); err == nil && !probe {
 				if _, known := ref[tcpip.Address(spa[:])]; !known {
 					viol("arp/learned-from-malformed", fmt.Sprintf("mapping %v -> %x learned from a malformed packet", spa, []byte(la)))
 				}
@@ -194,6 +202,9 @@ func answering(k int) {
 			run.Count("arp_replies_verified", 1)
 		} else if len(replies) != 0 {
 			viol("arp/answered-foreign", fmt.Sprintf("ARP op=%d for target %v (own=%v) drew %d replies", op, tpa, own, len(replies)))
+		}
+		if probe {
+			continue
 		}
 		// learning: from replies and from requests addressed to us; never from other requests
 		learn := op == 2 || (op == 1 && own)
